@@ -102,22 +102,44 @@ inductive Assigned
   | random                       -- bare remote address with a fresh random resource
   deriving DecidableEq, Repr
 
+/-- the reply IQ -/
+structure ReplyIQ where
+  type : String
+  id : String
+  /-- `to` / `from` of the reply (`""` = absent) -/
+  to : String
+  src : String
+  assigned : Option Assigned
+  cond : Option String
+  deriving DecidableEq, Repr
+
 structure SRes where
-  /-- the reply: type, id, assigned address, error condition; `none` = nothing sent -/
-  reply : Option (String × String × Option Assigned × Option String)
+  /-- the reply; `none` = nothing sent -/
+  reply : Option ReplyIQ
   /-- arguments the callback was called with: remote address, requested resource -/
   cbArgs : Option (String × String)
   err : Option String
   ready : Bool
   deriving DecidableEq, Repr
 
-/-- the receiving side of `bind`: `reqRes = none` when the request has no `<resource/>` -/
-def server (remote : String) (reqId : String) (reqRes : Option String) (cb : Callback) : SRes :=
+def addrOf : JidField → String
+  | .valid j => j
+  | _ => ""
+
+/-- the receiving side of `bind`: `reqRes = none` when the request has no `<resource/>`;
+`reqTo` / `reqFrom` are the request's `to` / `from` attributes.  A request whose addresses do
+not parse is not answered.  The reply is addressed back: its `to` is the request's `from`,
+its `from` the request's `to`. -/
+def server (remote : String) (reqId : String) (reqRes : Option String) (reqTo reqFrom : JidField)
+    (cb : Callback) : SRes :=
+  if reqTo = .invalid ∨ reqFrom = .invalid then ⟨none, none, some "jiderr", false⟩ else
   let args := some (remote, reqRes.getD "")
+  let rep (t : String) (a : Option Assigned) (c : Option String) : ReplyIQ :=
+    ⟨t, reqId, addrOf reqFrom, addrOf reqTo, a, c⟩
   match cb with
-  | .default => ⟨some ("result", reqId, some .random, none), none, none, true⟩
-  | .address j => ⟨some ("result", reqId, some (.jid j), none), args, none, true⟩
-  | .stanzaError c => ⟨some ("error", reqId, none, some c), args, some ("stanza:" ++ c), false⟩
+  | .default => ⟨some (rep "result" (some .random) none), none, none, true⟩
+  | .address j => ⟨some (rep "result" (some (.jid j)) none), args, none, true⟩
+  | .stanzaError c => ⟨some (rep "error" none (some c)), args, some ("stanza:" ++ c), false⟩
   | .failure => ⟨none, args, some "cberr", false⟩
 
 end XmppModel.Bind
